@@ -64,7 +64,9 @@ def gen_cases(rng, tier):
     for _ in range(nhist):
         n = rng.choice([1, 2, 3, 4, 6, 9, 15, 40])
         s = ''.join(rng.choice(ALPHA if rng.random() < 0.7 else 'ACGT') for _ in range(n))
-        pre = [rng.choice(['t2u', 'u2t', 'set0U', 'set0T', 'copy', 'iaddU', 'dataU', 'rc']) for _ in range(rng.randrange(1, 4))]
+        pre = [rng.choice(['t2u', 'u2t', 'set0U', 'set0T', 'copy', 'iaddU', 'dataU', 'rc', 'touch', 'shallow', 'deep']) for _ in range(rng.randrange(1, 4))]
+        if rng.random() < .15:
+            pre = ['touch', rng.choice(['shallow', 'deep', 'copy'])] + pre[:1]
         others = []
         if rng.random() < 0.6:
             k = rng.randrange(1, 4)
@@ -117,9 +119,27 @@ def apply_pre_obj(seq, pre):
             seq.data = seq.data.replace('T', 'U')
         elif e == 'copy':
             seq = seq.copy()
+        elif e == 'touch':          # read-only uses: must leave no state behind that a later operation picks up
+            seq.gc, seq.str.count('A'), str(seq), repr(seq)
+        elif e in ('shallow', 'deep'):      # the operation then runs on a duplicate; the source must stay as it is
+            import copy as _copy
+            src = seq
+            seq = _copy.copy(seq) if e == 'shallow' else _copy.deepcopy(seq)
+            _SOURCES.append((src, str(src)))
         elif e == 'rc':
             seq.rc()
     return seq
+
+
+_SOURCES = []
+
+
+def check_sources():
+    try:
+        for src, text in _SOURCES:
+            assert str(src) == text, 'an operation on a copy changed the object it was copied from: %r -> %r' % (text, str(src))
+    finally:
+        del _SOURCES[:]
 
 
 def cur(case):
@@ -129,6 +149,7 @@ def cur(case):
 def impl(case):
     from sugar import BioSeq, BioBasket
     s, op = case['s'], case['op']
+    del _SOURCES[:]
     seq = apply_pre_obj(BioSeq(s), case.get('pre', []))
     assert str(seq) == cur(case), 'in-place edits did not produce the expected residue string'
     s = cur(case)
@@ -159,6 +180,7 @@ def impl(case):
     else:
         r = obj.reverse()
     assert r is obj, 'in-place operation must return the receiver'
+    check_sources()
     if oseqs is not None:
         c = spec_complement
         exp = {'complement': c, 'rc': lambda x: c(x[::-1]), 'rev_complement': lambda x: c(x)[::-1],
